@@ -96,16 +96,27 @@ def main():
             missed += 1
             print("   " + "\n   ".join(r.stdout.splitlines()[-5:] + r.stderr.splitlines()[-5:]))
         shutil.rmtree(work, ignore_errors=True)
-    if not ids:
-        with open(f"{VERIF}/seeded/RESULTS.md", "w") as f:
-            f.write("# Must-fail corpus: which obligation catches which change\n\n")
-            f.write("Regenerated by `tools/selftest.py` (no arguments). `seeded/<id>/patch.diff` were written by\n"
-                    "independent sub-agents from the property text alone; `selftest/mutants/<id>/*.diff` are\n"
-                    "hand-written must-fail edits. Each change is applied as an overlay (never to /repo) and the\n"
-                    "property's check must report a VIOLATION. The obligation named is the first one reported.\n\n")
-            f.write("| property | change | result | first failed obligation (replay file name) | counterexample |\n|---|---|---|---|---|\n")
-            for r in rows:
-                f.write("| %s | %s | %s | %s | %s |\n" % r)
+    # RESULTS.md: rows of this run replace the rows for the same change; a full run rewrites the file
+    path = f"{VERIF}/seeded/RESULTS.md"
+    old_rows = {}
+    if ids and os.path.exists(path):
+        for l in open(path):
+            cells = [c.strip() for c in l.strip().strip("|").split("|")]
+            if len(cells) == 5 and re.match(r"^C\d\d$", cells[0]):
+                old_rows[cells[1]] = tuple(cells)
+    for r in rows:
+        old_rows[r[1]] = r
+    allrows = sorted(old_rows.values(), key=lambda r: (r[0], r[1])) if ids else rows
+    with open(path, "w") as f:
+        f.write("# Must-fail corpus: which obligation catches which change\n\n")
+        f.write("Written by `tools/selftest.py` (a run without arguments rewrites it, a run for some properties\n"
+                "replaces their rows). `seeded/<id>/patch.diff` were written by independent sub-agents from the\n"
+                "property text alone; `selftest/mutants/<id>/*.diff` are hand-written must-fail edits. Each change\n"
+                "is applied as an overlay (never to /repo) and the property's check must report a VIOLATION. The\n"
+                "obligation named is the first one reported.\n\n")
+        f.write("| property | change | result | first failed obligation (replay file name) | counterexample |\n|---|---|---|---|---|\n")
+        for r in allrows:
+            f.write("| %s | %s | %s | %s | %s |\n" % tuple(r))
     sys.exit(1 if missed else 0)
 
 if __name__ == "__main__":
